@@ -4,7 +4,7 @@ from lib import common as C, scen, clientrun
 THEOREMS = []
 
 BREAKS = ["none", "only_old", "only_new", "below_old_threshold", "below_new_threshold", "lower", "equal",
-          "skip", "unparsable", "wrong_name", "shipped_bad"]
+          "skip", "unparsable", "wrong_name", "shipped_bad", "repeated_signer"]
 
 
 def rot_patterns(rng, which=None):
@@ -58,6 +58,12 @@ def build(rng, n_hops, pattern, brk, pos, cs, epoch_for_meta):
         elif kind == "below_new_threshold":
             pk, pt = pattern[v - 2]
             signers = sorted(set(keys[:thr - 1]) | set(pk[:pt]))
+        elif kind == "repeated_signer":
+            # one signer short of the old threshold, with another old key signing twice, the two signatures apart
+            pk, pt = pattern[v - 2]
+            if pt >= 2:
+                mid = sorted(set(keys[:thr]) | set(pk[1:pt - 1]))
+                signers = [pk[0]] + [k for k in mid if k != pk[0]] + [9, pk[0]]
         elif kind == "lower":
             version_field = max(1, v - 2)
         elif kind == "equal":
